@@ -58,7 +58,11 @@ static void establish(void)
     nslots = 0;
     for (int i = 0; i < NSLOT; ++i) slot[nslots++] = B[0] + IO + 2 * LSZ + (uint64_t)i * 16;
     if (ku == 2) for (int i = 0; i < NSLOT; ++i) slot[nslots++] = B[1] + IO + (uint64_t)i * 16;
-    cur = ku == 1 ? B[0] + used0 : B[1] + used1;
+    /* the bump pointer may sit 8 bytes behind the last slot (an 8-byte reservation handed out earlier, LIVE): then it is
+       not max_alignment aligned and the remainder hand-off has to skip alignment padding */
+    uint64_t half = (nondet_u8() & 1) ? 8 : 0;
+    ASSUME(half <= rest); rest -= 0;
+    cur = (ku == 1 ? B[0] + used0 : B[1] + used1) + half;
     w_node_write(B[0], 0, bsz[0] - IO); ledger_add(B[0], bsz[0]);
     if (ku == 2) { w_node_write(B[1], B[0], bsz[1] - IO); ledger_add(B[1], bsz[1]); }
     /* slot states and list chains in symbolic order */
